@@ -18,6 +18,7 @@ type Lasso struct {
 	Events    [][]sched.Event  // per cycle
 	Quiet     int              // consecutive cycles without any event
 	Found     bool
+	M         *Model // model of the latest cycle (queues, pod groups) for classifying a period
 }
 
 // CanonicalState abstracts the store to: per (pod group, pod set) the sorted multiset of placements, a placement
@@ -81,6 +82,7 @@ func CanonicalState(m *Model) string {
 // cycle equals an earlier one with at least one eviction in between.
 func (l *Lasso) Step(m *Model, events []sched.Event, cycle int, st *Stats) []run.Violation {
 	cur := CanonicalState(m)
+	l.M = m
 	var out []run.Violation
 	if !l.Found {
 		for i := len(l.States) - 1; i >= 0; i-- {
@@ -230,7 +232,89 @@ func (l *Lasso) pattern(from int) string {
 	if !anyMoved {
 		// victims of reclaim / preempt are re-created and bound by allocate where they were before the pending
 		// workload they were evicted for is placed
-		return "victims-return-to-origin"
+		return "victims-return-to-origin:" + l.queueCause(from)
 	}
 	return "moved-pod-returns-to-origin"
+}
+
+// queueCause says how the queues of the victims and of the workloads they were evicted for relate in the period
+// starting at cycle index from: "victim-queue-priority-higher" if some victim's queue - lifted to the level where its
+// path diverges from the preemptor's - has a strictly higher queue priority than the preemptor's (the allocate
+// action serves that queue first whatever the quotas say), "same-queue" for victims of the preemptor's own leaf
+// queue, "equal-queue-priority" otherwise.
+func (l *Lasso) queueCause(from int) string {
+	m := l.M
+	if m == nil {
+		return "unknown"
+	}
+	queueOfGroup := func(pg string) string {
+		if g, ok := m.PodGroups[pg]; ok {
+			return g.Spec.Queue
+		}
+		return ""
+	}
+	groupOfPod := map[string]string{} // logical pod -> pod group
+	for _, p := range m.O.Pods {
+		lp := p.Annotations[spec.LogicalNameAnno]
+		if lp == "" {
+			lp = logicalPod(p.Name)
+		}
+		groupOfPod[lp] = p.Annotations["pod-group-name"]
+	}
+	prio := func(q string) int {
+		if qu, ok := m.Queues[q]; ok && qu.Spec.Priority != nil {
+			return *qu.Spec.Priority
+		}
+		return 100 // the scheduler's default queue priority
+	}
+	cause := ""
+	for c := from; c < len(l.Events); c++ {
+		for i := range l.Events[c] {
+			e := &l.Events[c][i]
+			if e.Kind != "evict" || !OK(e) || e.Preemptor == "" {
+				continue
+			}
+			pre := e.Preemptor
+			if j := strings.LastIndex(pre, "/"); j >= 0 {
+				pre = pre[j+1:]
+			}
+			vq, pq := queueOfGroup(groupOfPod[logicalPod(e.Pod)]), queueOfGroup(pre)
+			if vq == "" || pq == "" {
+				return "unknown"
+			}
+			if vq == pq {
+				if cause == "" {
+					cause = "same-queue"
+				}
+				continue
+			}
+			// lift both to the level where the paths diverge (paths are leaf first)
+			vp, pp := m.QueuePath(vq), m.QueuePath(pq)
+			vi, pi := len(vp)-1, len(pp)-1
+			for vi > 0 && pi > 0 && vp[vi].Name == pp[pi].Name {
+				vi--
+				pi--
+			}
+			if vi < 0 || pi < 0 {
+				return "unknown"
+			}
+			higher := false
+			for a, b := vi, pi; a < len(vp) && b < len(pp); a, b = a+1, b+1 { // the diverging level and above it
+				if vp[a].Name == pp[b].Name {
+					break
+				}
+				if prio(vp[a].Name) > prio(pp[b].Name) {
+					higher = true
+				}
+			}
+			if higher {
+				return "victim-queue-priority-higher"
+			}
+			cause = "equal-queue-priority"
+		}
+	}
+	if cause == "" {
+		return "unknown"
+	}
+	return cause
 }
